@@ -20,29 +20,23 @@ def compTok : Comp → String
   | .node n => nodeTok n
   | .ext e => s!"x{e}"
   | .inner i => s!"s{i}"
+  | .innerExp i => s!"u{i}"
+  | .innerConn i => s!"w{i}"
 
 def parseComp (t : String) : Option Comp :=
   match t.toList with
   | 'x' :: rest => (String.ofList rest).toNat?.map Comp.ext
   | 's' :: rest => (String.ofList rest).toNat?.map Comp.inner
+  | 'u' :: rest => (String.ofList rest).toNat?.map Comp.innerExp
+  | 'w' :: rest => (String.ofList rest).toNat?.map Comp.innerConn
   | _ => (parseNode t).map Comp.node
-
-/-- `computeOrder` fails: a dependency that is not a configured service extension -/
-def extMissing (exts : List Ext) : Bool := exts.any (fun e => e.deps.any (fun d => !(exts.any (fun x => x.id == d))))
-
-/-- `computeOrder` fails: the dependency graph has a cycle (peeling: an extension is released once all its dependencies are) -/
-def extCyclic (exts : List Ext) : Bool :=
-  let step (done : List Nat) : List Nat :=
-    done ++ (exts.filter (fun e => !(done.contains e.id) && e.deps.all (fun d => done.contains d))).map (·.id)
-  let rec it : Nat → List Nat → List Nat
-    | 0, d => d
-    | k + 1, d => it k (step d)
-  !(exts.all (fun e => (it exts.length []).contains e.id))
 
 structure S where
   cfg : Cfg := { pipes := [], conns := [] }
   exts : List Ext := []
   shared : Option Nat := none
+  sharedExp : Option Nat := none
+  sharedConn : Option Nat := none
   failS : List String := []
   failT : List String := []
   newEmitted : Bool := false
@@ -55,18 +49,32 @@ structure S where
   bad : Option String := none
 
 def newResult (s : S) : String :=
-  match build s.cfg with
+  match newService s.cfg s.exts with
   | some .connector => "err=connector"
   | some .cycle => "err=cycle"
-  | none => if extMissing s.exts then "err=extmissing" else if extCyclic s.exts then "err=extcycle" else "ok"
+  | some .extMissing => "err=extmissing"
+  | some .extCycle => "err=extcycle"
+  | none => "ok"
 
 def emitNew (s : S) : S × List String :=
   if s.newEmitted then (s, []) else ({ s with newEmitted := true }, ["obs new " ++ newResult s])
 
-def innerComps (s : S) : List Comp :=
-  match s.shared with
-  | some i => if (nodes s.cfg).any (fun n => match n with | .recv _ j => j == i | _ => false) then [Comp.inner i] else []
-  | none => []
+/-- components built on `sharedcomponent`: (kind, inner component, its instance nodes in the built graph) -/
+def groups (s : S) : List (String × Comp × List Node) :=
+  let ns := nodes s.cfg
+  let g (kind : String) (inner : Comp) (insts : List Node) : List (String × Comp × List Node) :=
+    if insts.isEmpty then [] else [(kind, inner, insts)]
+  (match s.shared with
+   | some i => g "receiver" (Comp.inner i) (ns.filter (fun n => match n with | .recv _ j => j == i | _ => false))
+   | none => []) ++
+  (match s.sharedExp with
+   | some i => g "exporter" (Comp.innerExp i) (ns.filter (fun n => match n with | .exp _ j => j == i | _ => false))
+   | none => []) ++
+  (match s.sharedConn with
+   | some i => g "connector" (Comp.innerConn i) (ns.filter (fun n => match n with | .conn _ _ j => j == i | _ => false))
+   | none => [])
+
+def innerComps (s : S) : List Comp := (groups s).map (·.2.1)
 
 def sysOf (s : S) : Sys := { cfg := s.cfg, exts := s.exts, gorderStart := [], gorderStop := [], eorder := [] }
 
@@ -95,6 +103,14 @@ def handler : Handler S where
       match i.toNat? with
       | some i => ({ s with shared := some i }, [])
       | none => (s, ["obs bad-op"])
+    | ["sharedexp", i] =>
+      match i.toNat? with
+      | some i => ({ s with sharedExp := some i }, [])
+      | none => (s, ["obs bad-op"])
+    | ["sharedconn", i] =>
+      match i.toNat? with
+      | some i => ({ s with sharedConn := some i }, [])
+      | none => (s, ["obs bad-op"])
     | ["failstart", l] => let (s, o) := emitNew s; ({ s with failS := s.failS ++ [l] }, o)
     | ["failstop", l] => let (s, o) := emitNew s; ({ s with failT := s.failT ++ [l] }, o)
     | ["run"] =>
@@ -118,7 +134,7 @@ def handler : Handler S where
     | _ => s
   onEnd := fun s =>
     let (s, newLines) := emitNew s
-    let isInner (c : Comp) : Bool := match c with | .inner _ => true | _ => false
+    let isInner (c : Comp) : Bool := match c with | .node _ => false | .ext _ => false | _ => true
     let sys := sysOf s
     let stAll := s.starts.reverse
     let spAll := s.stops.reverse
@@ -144,27 +160,27 @@ def handler : Handler S where
         clause "failed_start_last" (failedStartIsLast st) "C10/failure/component-started-after-a-failed-start",
         clause "results" ((o.startOk == allOk stAll) && (o.stopOk == allOk spAll)) "C10/failure/reported-result-differs-from-component-results",
         clause "started_all" (startedAll sys o) "C10/start/successful-start-skipped-a-component" ]
-    -- shared inner component
+    -- components built on sharedcomponent: the inner component against ALL its instances' neighbours
     let sharedProps : List (Option String) :=
-      match s.shared, s.ran with
-      | some i, true =>
-        let inner := Comp.inner i
-        let insts := (nodes s.cfg).filter (fun n => match n with | .recv _ j => j == i | _ => false)
-        if insts.isEmpty then [] else
+      if !s.ran then [] else
+      (groups s).flatMap (fun (kind, inner, insts) =>
         let E := edges s.cfg
         let stA := stAll.map (·.1)
         let spA := spAll.map (·.1)
         let down := C09.dedup (insts.flatMap (compSucc E))
+        let up := ((nodes s.cfg).filter Node.isComp).filter (fun b => (compSucc E b).any (fun a => insts.contains a))
+        let pre := if kind = "receiver" then "" else kind ++ "-"
         [ clause "shared_start_once" (stA.count inner ≤ 1 &&
               (stA.count inner == 1 || !(stAll.any (fun e => e.2 && insts.any (fun n => Comp.node n == e.1)))))
-            "C10/shared/inner-start-count",
-          clause "shared_stop_once" (spA.count inner == 1) "C10/shared/inner-stop-count",
+            s!"C10/shared/{pre}inner-start-count",
+          clause "shared_stop_once" (spA.count inner == 1) s!"C10/shared/{pre}inner-stop-count",
           clause "shared_start_after_downstream"
             (!(stA.contains inner) || down.all (fun a => beforeB stA (Comp.node a) inner))
-            "C10/shared/inner-started-before-downstream-of-a-sibling-instance",
+            s!"C10/shared/{pre}inner-started-before-downstream-of-a-sibling-instance",
           clause "shared_stop_before_downstream" (down.all (fun a => beforeB spA inner (Comp.node a)))
-            "C10/shared/inner-stopped-after-a-downstream-component" ]
-      | _, _ => []
+            s!"C10/shared/{pre}inner-stopped-after-a-downstream-component",
+          clause "shared_stop_after_upstream" (up.all (fun b => beforeB spA (Comp.node b) inner))
+            s!"C10/shared/{pre}inner-stopped-before-upstream-of-a-sibling-instance" ])
     let fails := (lifecycle ++ sharedProps).filterMap id
     -- model's prediction of the order-independent observations
     let runLines : List String :=
@@ -174,13 +190,14 @@ def handler : Handler S where
       -- down exactly once, so exactly the injected shutdown failures are reported — plus, for a failing shared
       -- inner Shutdown, the instance whose Shutdown ran it (stopOnce: the first instance stopped; from the log)
       let startRes := if s.failS.any (fun l => comps.contains l) then "fail" else "ok"
-      let isInst (c : Comp) : Bool := match c, s.shared with | .node (.recv _ j), some i => j == i | _, _ => false
+      let allInsts : List Comp := (groups s).flatMap (fun g => g.2.2.map Comp.node)
       let carrier : List String :=
-        match s.shared with
-        | some i => if s.failT.contains (compTok (Comp.inner i)) then ((spAll.map (·.1)).filter isInst).take 1 |>.map compTok else []
-        | none => []
+        (groups s).flatMap (fun (_, inner, insts) =>
+          if s.failT.contains (compTok inner) then
+            (((spAll.map (·.1)).filter (fun c => insts.any (fun n => Comp.node n == c))).take 1).map compTok
+          else [])
       -- (the harness's outer wrapper of a shared instance has no failure switch of its own for Shutdown)
-      let instToks := ((allComps sys).filter isInst).map compTok
+      let instToks := allInsts.map compTok
       let stopErrs := C09.dedup ((s.failT.filter (fun l => comps.contains l && !(instToks.contains l))) ++ carrier)
       [s!"obs start {startRes}", obsList "stops" comps, obsList "stoperr" stopErrs,
         if stopErrs.isEmpty then "obs shutdown ok" else "obs shutdown err"]
